@@ -103,8 +103,18 @@ def func_source(f, ind):
     return "\n".join(lines) + "\n\n"
 
 
+OWN_OUTER = '''class Outer:
+    """(only in modules of the naming-rules family) a nested class of the module itself, named like zutil.Outer.Inner"""
+
+    class Inner:
+        pass
+
+
+'''
+
+
 def module_source(funcs):
-    src = HEADER
+    src = HEADER + (OWN_OUTER if any(f.get("own_outer") for f in funcs) else "")
     tree = {}
     for f in funcs:
         node = tree
@@ -233,6 +243,8 @@ def run_module_case(case):
             return t
         if t["k"] == "cls" and t["n"] in ("$OWN", "$OTHER_OWN"):
             return T("cls", absmodel.TABLE.name((own if t["n"] == "$OWN" else other).Own))
+        if t["k"] == "cls" and t["n"] == "$OWN_INNER":
+            return T("cls", absmodel.TABLE.name(own.Outer.Inner))
         return dict(t, a=[subst(x, own, other) for x in t["a"]], u=[subst(x, own, other) for x in t["u"]])
     for fs, own, other in ((case["funcs"], mod, mod2), (case.get("other") or [], mod2, mod)):
         for f in fs:
@@ -722,6 +734,7 @@ def gen_c11(tier, seed, env_text):
                     "traces": [{"args": {"a": subst_marker(use_ty, "$OWN", "$OTHER_OWN")}, "ret": None, "yld": None}]}
             cases.append({"funcs": [use2], "other": [o_mk], "other_first": first, "strategy": "REPLICATE", "k": 0,
                           "family": "c11_parameterless_function_returning_own_class"})
+    cases.extend(render_model_cases(tier))
     # a functools.cached_property getter: whatever decorator the stub writes for it must be a name the stub provides
     cp = {"name": "size", "container": ["Cls"], "fkind": "cached", "params": [], "traces": [{"args": {}, "ret": INT, "yld": None}]}
     cases.append({"funcs": [cp], "strategy": "REPLICATE", "k": 0, "family": "c11_functools_cached_property"})
@@ -748,6 +761,59 @@ def gen_c11(tier, seed, env_text):
     f3 = {"name": "same", "container": [], "fkind": "module", "params": [{"name": "same", "kind": "poskw", "default": None}],
           "traces": [{"args": {"same": td1}, "ret": td2, "yld": None}]}
     cases.append({"funcs": [f3], "strategy": "REPLICATE", "k": 3, "family": "c11_hint_collision"})
+    return cases
+
+
+def render_model_cfg(uname, devs, emit):
+    return ("SPECIFICATION Spec\nCONSTANTS\n  Own <- OwnT\n  ModOrder <- ModOrderT\n  MaxSig = 3\n  UName = \"%s\"\n" % uname
+            + "".join("  %s = %s\n" % (k, "TRUE" if v else "FALSE") for k, v in sorted(devs.items()))
+            + ("INVARIANT Emit\n" if emit else "INVARIANT Inv_SelfContained\nINVARIANT Inv_DenotesSame\n") + "CHECK_DEADLOCK FALSE\n")
+
+
+RENDER_DEVS = ("Dev_StripAnyOrder", "Dev_LastImportWins", "Dev_ChainedStrip")
+_RENDER = {}
+
+
+def render_model():
+    """MTRender (the naming rules of a module stub over dotted names): (1) the DESIGN - deviations off, a universe
+    without two classes of one outermost name - satisfies SelfContained and DenotesSame for every signature of <= 3
+    classes; (2) the model AS THE CODE IS (model_deviations.json) over the whole collision universe exports every
+    signature with its predicted verdicts."""
+    if _RENDER:
+        return _RENDER
+    design = tlc.run_tlc("MTRenderMC", cfg_text=render_model_cfg("distinct", {d: False for d in RENDER_DEVS}, False), workers=2, timeout=600)
+    tlc.check_ok(design, "MTRenderMC")
+    if design.invariant_violated or design.property_violated:
+        raise tlc.TLCFailure("MTRenderMC: the design violates C11\n" + design.out[-1500:])
+    code = tlc.run_tlc("MTRenderMC", cfg_text=render_model_cfg("all", core.model_deviations(RENDER_DEVS), True), workers=1, timeout=600)
+    tlc.check_ok(code, "MTRenderMC")
+    sigs = []
+    for line in code.out.splitlines():
+        if line.startswith('<<"H", '):
+            sigs.append(json.loads(json.loads(line[len('<<"H", '):-2])))
+    _RENDER.update(design=design, code=code, sigs=sigs)
+    return _RENDER
+
+
+def render_model_cases(tier):
+    """Generated modules for the signatures TLC exports from MTRenderMC: each class of the signature is the traced type
+    of one parameter (and of the return value, in rotation).  Where the model says the outcome depends on the order in
+    which equally long module names are met, every order of the parameters is a case of its own."""
+    cases = []
+    for n, sg in enumerate(render_model()["sigs"]):
+        classes = sorted(sg["sig"], key=lambda c: (c["m"], c["q"]))
+        pr = sg["pred"]
+        order_dependent = (pr["sc"], pr["ds"]) != (pr["sc1"], pr["ds1"])
+        perms = list(itertools.permutations(classes)) if order_dependent or tier != "quick" else [classes[n % len(classes):] + classes[:n % len(classes)]]
+
+        def ty(c):
+            name = ".".join(c["m"] + c["q"])
+            return T("cls", {"own.Own": "$OWN", "own.Outer.Inner": "$OWN_INNER"}.get(name, name))
+        for k, perm in enumerate(perms):
+            params = [{"name": "abc"[i], "kind": "poskw", "default": None} for i in range(len(perm))]
+            f = {"name": "func", "container": [], "fkind": "module", "params": params, "own_outer": True,
+                 "traces": [{"args": {"abc"[i]: ty(c) for i, c in enumerate(perm)}, "ret": ty(perm[0]) if k % 2 == 0 else None, "yld": None}]}
+            cases.append({"funcs": [f], "strategy": "REPLICATE", "k": 0, "family": "c11_render_model", "pred": pr, "sig_no": n})
     return cases
 
 
@@ -934,6 +1000,26 @@ def main(pid, tier, seed, replay=None):
         for clause in v.get("viol", []):
             if clause in mine:
                 run.violation(signature(pid, clause, rec, case), {k: case[k] for k in ("funcs", "strategy", "k", "family")})
+    if pid == "C11" and not replay:     # I-layer comparison: MTRender's predictions against what the real stub did
+        got = {v["tid"]: set(v.get("viol", [])) for v in verdicts}
+        per_sig = {}
+        for c in cases:
+            if c["family"] == "c11_render_model":
+                g = got.get(c["tid"], set())
+                per_sig.setdefault(c["sig_no"], [c, []])[1].append(("SelfContained" not in g, "DenotesSame" not in g))
+        for c, outs in per_sig.values():
+            pr = c["pred"]
+            ok = True
+            for i, a in enumerate(("sc", "ds")):
+                if pr[a]:                     # holds in every order the model allows: held in every case
+                    ok = ok and all(o[i] for o in outs)
+                elif not pr[a + "1"]:         # holds in no order: failed in every case
+                    ok = ok and not any(o[i] for o in outs)
+                else:                         # depends on the order: all parameter orders were run, one of them fails
+                    ok = ok and not all(o[i] for o in outs)
+            if not ok:
+                run.drift += 1
+                run.notes.append({"drift": sorted(a["n"] for a in c["funcs"][0]["traces"][0]["args"].values()), "pred": pr, "got": sorted(set(outs))})
     fams = {}
     for c in cases:
         fams[c["family"]] = fams.get(c["family"], 0) + 1
@@ -958,6 +1044,16 @@ def main(pid, tier, seed, replay=None):
     }
     if pid == "C11":
         run.level = "translation_validation"
+        if not replay:
+            rm = render_model()
+            cov["render_model"] = {"spec": "MTRender / MTRenderMC: naming rules over dotted names; design (deviations off, distinct "
+                                           "outermost names) model-checked for SelfContained and DenotesSame; every signature of 2..3 "
+                                           "classes of the collision universe exported with predicted verdicts and replayed",
+                                   "design_distinct_states": rm["design"].distinct, "signatures_exported": len(rm["sigs"]),
+                                   "predicted_violations": sum(1 for x in rm["sigs"] if not (x["pred"]["sc"] and x["pred"]["ds"])),
+                                   "drift_examples": [n for n in run.notes if isinstance(n, dict) and "drift" in n][:5]}
+            cov["states"] += rm["design"].distinct + rm["code"].distinct
+            cov["transitions"] += rm["design"].generated + rm["code"].generated
         cov["programs"] = len(records)
         cov["disagreements_checked"] = len(verdicts)
     return run.finish(cov)
